@@ -9,7 +9,7 @@ from .c01 import reply_ok
 
 ID = "C03"
 BUDGET = {"quick": 40, "thorough": 600}
-MAX_RUNS = {"quick": 2000, "thorough": 400000}
+MAX_RUNS = {"quick": 10000, "thorough": 400000}
 TECHNIQUE = "deterministic simulation: hostile destination strings pushed through every (inbound codec, outbound codec) pair of the real listeners/connectors with short writes on the upstream hop; independent reference parsers on the next hop"
 RULE = ("plans: inbound codec (HTTP CONNECT line, SOCKS4a, SOCKS5 domain/IPv4/IPv6, SOCKS5-UDP header, RPFM header) x outbound codec (HTTP CONNECT+Host, SOCKS4/4a, SOCKS5, "
         "direct via the DNS seam, RPFM, SOCKS5-UDP) x host from a hostile pool (length 0,1,3,4,253-256,300,70000; space, CR, LF, NUL, ':', '@', brackets, non-UTF-8; "
